@@ -48,8 +48,14 @@ def generate(rng, tier, focus):
             # put the second body almost half a box away from the first along one axis (near-tie side)
             ax = rng.randrange(3)
             ops.append({"op": "halfbox", "who": who, "axis": ax, "eps": rng.choice([-1, 1]) * rng.uniform(2e-6, 1e-3)})
+    forms = {"point": rng.choice(["array", "array", "list", "tuple"]), "box": rng.choice(["array", "array", "lists", "int_array"])}
+    if forms["box"] == "int_array":
+        if kind in ("ortho", "cubic"):
+            box = np.diag([float(max(1, round(x))) for x in np.diag(box)])     # integer edges, handed over as an int array
+        else:
+            forms["box"] = "lists"
     return {"box": box.tolist(), "kind": kind, "res1": res1, "res2": res2, "ops": ops,
-            "point_arg": rng.random() < 0.3}
+            "point_arg": rng.random() < 0.3, "forms": forms}
 
 
 def abbreviate(trace):
@@ -115,13 +121,24 @@ def execute(trace, ctx):
             return
         scale = max(1.0, float(np.max(np.abs(box))), float(np.max(np.abs(c0))), float(np.max(np.abs(c1))))
         tol = 1e-9 * scale
+        forms = trace.get("forms") or {}
         box_in = box.copy()
+        if forms.get("box") == "lists":
+            box_in = box.tolist()
+            ctx.probe("box_as_nested_lists")
+        elif forms.get("box") == "int_array":
+            box_in = box.astype(np.int64)
+            ctx.probe("box_as_integer_array")
         other = c1.copy() if trace.get("point_arg") else r[1]
         if trace.get("point_arg"):
             ctx.probe("point_argument")
+            if forms.get("point") == "list":
+                other = [float(x) for x in c1]
+            elif forms.get("point") == "tuple":
+                other = tuple(float(x) for x in c1)
         got = float(r[0].distance_to(other, box_vects=box_in))
         ctx.ev("dist", got)
-        if not np.array_equal(box_in, box):
+        if not np.array_equal(np.asarray(box_in, dtype=float), box):
             ctx.violate(P, "box-argument-modified", "distance_to modified the caller's box matrix")
         if not math.isfinite(got):
             ctx.violate(P, "not-finite", f"periodic distance is {got}")
